@@ -11,6 +11,7 @@ import (
 
 	"github.com/hedzr/is"
 	"github.com/hedzr/logg/slog"
+	errorsv3 "gopkg.in/hedzr/errors.v3"
 
 	"verifharness/gen"
 	"verifharness/mon"
@@ -78,6 +79,9 @@ func (v nestingValue) String() string {
 	v.lg.Info("inner "+v.id, "x", 1)
 	return "inner-done"
 }
+
+// c13located carries the stack of the place where it was made.
+var c13located = errorsv3.New("a cause with a stack trace")
 
 func c13enum(c *Ctx) {
 	_ = slog.RegisterLevel(lvlCustErr, "custerr", slog.RegWithTreatedAsLevel(slog.ErrorLevel), slog.RegWithPrintToErrorDevice(true))
@@ -240,6 +244,11 @@ func c13enum(c *Ctx) {
 						// ... through the entry the std log bridge uses
 						_, _ = lg.WriteInternal(bg, sev, 0, []byte("rec "+id+"\n"))
 						c.R.Add("records_through_WriteInternal", 1)
+					case (idx+ci)%5 == 2:
+						// a record that carries an error with a stack trace of its own (under go test the text formats
+						// append its details to the record: still ONE payload per destination)
+						lg.LogAttrs(bg, sev, "rec "+id, "k", ci, "cause", c13located)
+						c.R.Add("records_with_a_located_error", 1)
 					default:
 						lg.LogAttrs(bg, sev, "rec "+id, "k", ci)
 					}
